@@ -206,3 +206,17 @@ Proof.
     destruct (Q EMainCtx (set_main s RetCtx true)) as [(i0 & ok & E)|E]; try discriminate.
     unfold step. rewrite M, C. reflexivity.
 Qed.
+
+(* a connection is closed at most once: once its owner left with it, no step touches it again; and the
+   returned connection is never closed by the resolver *)
+Theorem no_double_close : forall s e s' j, step s e = Some s' -> closed_conn s j -> closed_conn s' j /\ e <> ELeave j.
+Proof.
+  intros s e s' j H C. unfold closed_conn in *.
+  destruct e; inv_step H; simpl; unfold upd; try (destruct (Nat.eqb_spec j i); subst; try congruence);
+    split; try assumption; try congruence; try discriminate.
+Qed.
+Theorem returned_never_closed : forall n s i, 1 <= n -> reachable n s -> d_main s = RetConn i -> ~ closed_conn s i.
+Proof.
+  intros n s i N R M C. destruct (inv_reachable _ _ N R) as [Jn Jret Jdel Jdctx Jctx Jerrs Jlt Jrun Jall Jrc].
+  unfold closed_conn in C. rewrite (Jret _ M) in C. discriminate.
+Qed.
